@@ -26,6 +26,7 @@ import (
 	"github.com/semihalev/sdns/middleware/cache"
 	"github.com/semihalev/sdns/middleware/edns"
 	"github.com/semihalev/sdns/middleware/failover"
+	"github.com/semihalev/sdns/middleware/forwarder"
 	"github.com/semihalev/sdns/middleware/resolver"
 )
 
@@ -581,6 +582,19 @@ func fallback() *fallbackSrv {
 			m := new(dns.Msg)
 			m.SetReply(req)
 			m.RecursionAvailable = true
+			var ck, cid int
+			if n, _ := fmt.Sscanf(req.Question[0].Name, "c%d-%d.chain.test.", &ck, &cid); n == 2 && ck > 0 {
+				// an upstream that answers an alias with the alias alone
+				m.Answer = []dns.RR{&dns.CNAME{Hdr: dns.RR_Header{Name: req.Question[0].Name, Rrtype: dns.TypeCNAME, Class: dns.ClassINET, Ttl: 300},
+					Target: fmt.Sprintf("c%d-%d.chain.test.", ck-1, cid)}}
+				if o := req.IsEdns0(); o != nil {
+					m.SetEdns0(1232, o.Do())
+				}
+				if b, err := m.Pack(); err == nil {
+					_, _ = pc.WriteTo(b, addr)
+				}
+				continue
+			}
 			m.Answer = []dns.RR{&dns.A{Hdr: dns.RR_Header{Name: req.Question[0].Name, Rrtype: dns.TypeA, Class: dns.ClassINET, Ttl: 60}, A: net.IPv4(192, 0, 2, 99)}}
 			if o := req.IsEdns0(); o != nil {
 				m.SetEdns0(1232, o.Do())
@@ -600,6 +614,7 @@ type miniPipe struct {
 	policy middleware.RecursionWorkPolicy
 	failed map[string]bool // reference: names whose failure may legitimately be cached
 	cfg    [nKinds]uint32  // configured caps
+	fwd    bool            // forwarder mode: edns → cache → forwarder → in-process upstream (no stub)
 	fo     bool            // failover middleware with one fallback server between cache and stub
 	good   map[string]bool // reference: names a fallback answer was legitimately obtained for
 }
@@ -608,6 +623,7 @@ var curPipe *miniPipe
 
 func pipeNew(mode string, raw [nKinds]uint32, opts ...string) vlib.Res {
 	fo := len(opts) > 0 && opts[0] == "failover"
+	fwd := len(opts) > 0 && opts[0] == "forwarder"
 	if _, ok := mustPolicy(mode, raw); !ok {
 		curPipe = nil
 		return vlib.Res{Impl: "invalid", Oracle: "ok"}
@@ -624,11 +640,18 @@ func pipeNew(mode string, raw [nKinds]uint32, opts ...string) vlib.Res {
 		cfg.FallbackServers = []string{fallback().pc.LocalAddr().String()}
 		reg.Register("failover", func(c *config.Config) middleware.Handler { return failover.New(c) })
 	}
-	reg.Register("stub", func(c *config.Config) middleware.Handler { return st })
+	if fwd {
+		cfg.ForwarderServers = []string{fallback().pc.LocalAddr().String()}
+		cfg.Timeout.Duration = 2 * time.Second
+		cfg.QueryTimeout.Duration = 5 * time.Second
+		reg.Register("forwarder", func(c *config.Config) middleware.Handler { return forwarder.New(c) })
+	} else {
+		reg.Register("stub", func(c *config.Config) middleware.Handler { return st })
+	}
 	p := reg.Build(cfg)
 	middleware.VerifL3AutoWire(p)
 	pol := middleware.MustRecursionWorkPolicyFromConfig(cfg.RecursionFirewall)
-	curPipe = &miniPipe{p: p, st: st, policy: pol, failed: map[string]bool{}, cfg: configuredCaps(raw), fo: fo, good: map[string]bool{}}
+	curPipe = &miniPipe{p: p, st: st, policy: pol, failed: map[string]bool{}, cfg: configuredCaps(raw), fo: fo, fwd: fwd, good: map[string]bool{}}
 	return vlib.Res{Impl: fmt.Sprintf("mode=%s caps=%s", modeName(pol.Mode), u32csv(policyCaps(pol))), Oracle: "ok"}
 }
 
@@ -803,6 +826,7 @@ func pipeChain(id, length int, ednsOn, warm bool, client string) vlib.Res {
 		ctx, _ = middleware.EnsureRecursionWork(ctx, gen)
 	}
 	before := mp.st.calls.Load()
+	upBefore := fallback().hits.Load()
 	ch.Next(ctx)
 	var m *dns.Msg
 	if w.Written() {
@@ -812,6 +836,31 @@ func pipeChain(id, length int, ednsOn, warm bool, client string) vlib.Res {
 	calls := int(mp.st.calls.Load() - before)
 	if warm {
 		return vlib.Res{Impl: "warmed", Oracle: "-"}
+	}
+	if mp.fwd {
+		// forwarder mode: every hop is one upstream query of the same request tree
+		up := int(fallback().hits.Load() - upBefore)
+		enforce := mp.policy.Mode == middleware.RecursionWorkEnforce
+		over := enforce && (uint32(length) > mp.cfg[1] || uint32(length+1) > mp.cfg[0])
+		or := "ok"
+		code, _, has := edeOf(m)
+		switch {
+		case m == nil:
+			or = "FAIL sig=pipe/chain/no-reply"
+		case enforce && uint32(up) > mp.cfg[0]:
+			or = fmt.Sprintf("FAIL sig=pipe/chain/forwarded-queries-past-transport-budget upstream-queries=%d budget=%d hops=%d", up, mp.cfg[0], length)
+		case over && m.Rcode != dns.RcodeServerFailure:
+			or = fmt.Sprintf("FAIL sig=pipe/chain/over-budget-reply-not-servfail rcode=%d", m.Rcode)
+		case over && ednsOn && !has:
+			or = "FAIL sig=pipe/chain/over-budget-reply-without-ede"
+		case !over && (m.Rcode != dns.RcodeSuccess || len(m.Answer) != length+1):
+			or = fmt.Sprintf("FAIL sig=pipe/chain/within-budget-chain-not-answered rcode=%d an=%d", m.Rcode, len(m.Answer))
+		}
+		ede := "-"
+		if has {
+			ede = strconv.Itoa(code)
+		}
+		return vlib.Res{Impl: fmt.Sprintf("rcode=%d an=%d ede=%s up=%d", m.Rcode, len(m.Answer), ede, up), Oracle: or, Tags: "nt,chain,forwarder"}
 	}
 	over := mp.policy.Mode == middleware.RecursionWorkEnforce && uint32(length) > mp.cfg[1]
 	or := "ok"
@@ -943,6 +992,74 @@ func subNest(mode string, intCap uint32) vlib.Res {
 		or = "FAIL sig=sub/nest/non-enforce-mode-rejected"
 	}
 	return vlib.Res{Impl: fmt.Sprintf("depth=%d err=%s", depth, errName), Oracle: or, Tags: "nt"}
+}
+
+// ---------------------------------------------------------------- pickFallbackResponse
+
+// pick <rcodes csv|-> <nconfig> <errs: string of w(ork limit) a(ttempt limit) o(ther) | ->
+func pickFallback(rcodes string, nconfig int, errs string) vlib.Res {
+	var resps, cfgs []*dns.Msg
+	if rcodes != "-" {
+		for _, f := range strings.Split(rcodes, ",") {
+			m := new(dns.Msg)
+			m.SetQuestion("x.pick.test.", dns.TypeA)
+			m.Rcode = vlib.Atoi(f)
+			resps = append(resps, m)
+		}
+	}
+	for i := 0; i < nconfig; i++ {
+		m := new(dns.Msg)
+		m.SetQuestion("x.pick.test.", dns.TypeA)
+		cfgs = append(cfgs, m)
+	}
+	var fatal []error
+	hasWork := false
+	if errs != "-" {
+		for _, c := range errs {
+			switch c {
+			case 'w':
+				fatal = append(fatal, fmt.Errorf("exchange: %w", &middleware.RecursionWorkLimitError{Kind: middleware.RecursionWorkOutboundQuery, Limit: 1}))
+				hasWork = true
+			case 'a':
+				fatal = append(fatal, &middleware.ResolutionAttemptLimitError{Endpoint: "192.0.2.1:53", Transport: "udp"})
+			default:
+				fatal = append(fatal, errOther)
+			}
+		}
+	}
+	msg, err := resolver.VerifC12PickFallback(resps, cfgs, fatal)
+	out := "none"
+	switch {
+	case err != nil && errors.Is(err, middleware.ErrRecursionWorkLimit):
+		out = "work"
+	case err != nil && errors.Is(err, middleware.ErrResolutionAttemptLimit):
+		out = "attempt"
+	case err != nil && resolver.VerifC12IsFatal(err):
+		out = "conn"
+	case err != nil:
+		out = "err"
+	case msg != nil:
+		for i, m := range resps {
+			if m == msg {
+				out = fmt.Sprintf("resp%d", i)
+			}
+		}
+		for i, m := range cfgs {
+			if m == msg {
+				out = fmt.Sprintf("config%d", i)
+			}
+		}
+	}
+	or := "ok"
+	// policy exhaustion is terminal: no authority's error response may stand in for it (it would be
+	// read as evidence about the zone, and hide the policy failure from the caller's retry paths)
+	if hasWork && out != "work" {
+		or = fmt.Sprintf("FAIL sig=pick/work-limit-outranked-by-%s", strings.TrimRight(out, "0123456789"))
+	}
+	if !hasWork && out == "work" {
+		or = "FAIL sig=pick/work-limit-from-nowhere"
+	}
+	return vlib.Res{Impl: out, Oracle: or, Tags: "nt,pick"}
 }
 
 // ---------------------------------------------------------------- checkLoop / minimize
